@@ -314,10 +314,6 @@ val followl :
 
 val lookback : grammar -> automaton -> nat -> nat -> ntrans list
 
-val lAl :
-  grammar -> automaton -> nat -> (nat -> bool) -> (nat -> bool) -> nat -> nat
-  -> nat list
-
 val nmem1 : nat -> nat list -> bool
 
 val nzpos : nat -> (nat -> nat -> z) -> nat -> nat list
@@ -387,15 +383,18 @@ val is_nt_b : grammar -> nat -> bool
 
 val nullable_list : grammar -> nat list
 
-val nullable_b : grammar -> nat -> bool
-
 val productive_list : grammar -> nat list
 
 val unproductive : ginfo -> nat list
 
 val start_user : grammar -> nat
 
-val la_exec : grammar -> automaton -> nat -> nat -> nat list
+val follow_table : grammar -> automaton -> (ntrans * nat list) list
+
+val follow_lookup : (ntrans * nat list) list -> ntrans -> nat list
+
+val la_fast :
+  grammar -> automaton -> (ntrans * nat list) list -> nat -> nat -> nat list
 
 val la_table : grammar -> automaton -> (nat * nat list) list list
 
